@@ -66,10 +66,64 @@ CLAIM = {
             'model has no mutable state). Two further defects found by R1 and fixed: update_inv_sum_diag with an '
             'integer-dtype inverse or a real inverse and complex diagonal (UFuncTypeError), float16/float32 '
             'logarithms for narrow numpy integers in the dB conversions. Not accepted by the API and therefore not '
-            'exercised: float16 matrices (numpy.linalg rejects them), Python lists for the matrix routines.',
+            'exercised: float16 matrices (numpy.linalg rejects them), Python lists for the matrix routines. '
+            'SECOND ROBUSTNESS ROUND: R8 argument forms (every documented parameter positionally / by keyword in '
+            'every order / default left vs given explicitly; scalar = 0-d = length-1 = 1x1 for the conversions; '
+            'module alias = static method = static method through an instance = Projection(A).Q/.oQ; project = '
+            'Q.dot(M); peig = leig reversed; dBm = dB with the factor 1000; EbN0 = SNR - linear2dB(bits)) - oracle '
+            'argument-forms + keyword/default calls in every correspondence stream; THEOREMS '
+            'projection_methods_are_static_results, peig_is_leig_reversed, conversion_entry_points_agree; there is '
+            'no setter path (Projection is configured by its constructor only). R9 counts n / num_components / '
+            'bits_per_symb as int, int8..int64, uint8..uint64, intp, 0-d array, bool, also > 256 - oracle '
+            'index-forms + every count of the selector correspondences cycles through the types; in the model a '
+            'count is a natural number (the logical value), negative indexes are not documented. R10 arguments of '
+            'one call with different element types (real/complex, float32/complex128, integer/float; a list of '
+            'mixed Python and numpy scalars) against the promoted twins - oracle mixed-types + mixed pairs in the '
+            'projection / chordal / update_inv_sum_diag correspondences; there are no list-of-arrays parameters. '
+            'R11 queries (project / oProject / reflect, repr, static methods through the instance, copies, pickling) '
+            'leave Q, oQ, _A and later results unchanged, R13 deep copies and pickle round trips equal and '
+            'independent, results overwritten by the caller never leak into later results - oracles '
+            'Projection.derived and independence (oracle only: the model has no state). R12 the API has no dict / '
+            'set / named containers; the analogue - the order in which basis vectors, users or rows are listed - '
+            'is covered by the oracle column-order and the THEOREM proj_column_order_invariant. R14 one case per '
+            'routine with 257 / 258 / 300 columns, users or eigenvalues per quick run (513 and a 65537-element '
+            'conversion in thorough): oracles on regenerated large inputs, index-level and conversion '
+            'correspondences (the value-level model driver is not run at that size: its lazy function matrices are '
+            'far too slow there); every theorem is for all sizes. R14 exposed and fixed: gmd geometric mean '
+            'overflow (np.prod of 300 singular values).',
 }
 
 EPS = 2.220446049250313e-16
+
+
+def limit_blas_threads(n=1):
+    """the large-count cases (R14) run LAPACK on 300 x 300 matrices: with the default thread pool on a loaded
+    machine they are ~250x slower (thread oversubscription) than single threaded; results do not depend on it"""
+    import ctypes
+    import glob
+    import os
+    done = []
+    roots = [os.path.dirname(np.__file__)]
+    try:
+        import scipy
+        roots.append(os.path.dirname(scipy.__file__))
+    except ImportError:
+        pass
+    for base in roots:
+        for lib in glob.glob(os.path.join(base, '..', '*.libs', '*openblas*')) + glob.glob(os.path.join(base, '.libs', '*openblas*')):
+            try:
+                h = ctypes.CDLL(lib)
+            except OSError:
+                continue
+            for sym in ('openblas_set_num_threads', 'openblas_set_num_threads64_', 'scipy_openblas_set_num_threads',
+                        'scipy_openblas_set_num_threads64_'):
+                if hasattr(h, sym):
+                    getattr(h, sym)(n)
+                    done.append(sym)
+    return done
+
+
+limit_blas_threads(1)
 
 
 def _impl():
@@ -416,6 +470,21 @@ def corr_variants(ctx, g, n):
             ctx.branch('corr-' + br)
         out.append((var, (t // 10) % 2 == 0, t))
     return out
+
+
+def index_form(ctx, value, i):
+    """R9 in the correspondence: the count in the i-th index type that can hold it"""
+    for j in range(len(INDEX_TYPES)):
+        t = INDEX_TYPES[(i + j) % len(INDEX_TYPES)]
+        v = mk_index(value, t)
+        if v is not None:
+            ctx.branch('corr-R9:index-' + t)
+            return v
+    return value
+
+
+def big_size(ctx):
+    return [257, 258, 300][ctx.seed % 3]
 
 
 def tol_for(c2, m, factor, *arrs):
@@ -873,7 +942,7 @@ def o_conversion_types(case):
     shape, dt, layout = tuple(form['shape']), form['dtype'], form.get('layout')
     rt_ = type_rtol(dt)
     size = int(np.prod(shape)) if shape else 1
-    mult = np.arange(1, size + 1).reshape(shape) if size else np.zeros(shape)
+    mult = (np.arange(size) % 60 + 1).reshape(shape) if size else np.zeros(shape)   # bounded: values stay in every dtype's range
     if form.get('broadcast'):
         xa = np.broadcast_to(np.array(x, dtype=dt), shape)
         ya = np.broadcast_to(np.array(y, dtype=dt), shape)
@@ -1844,6 +1913,10 @@ def r8_oracles(ctx, n):
         for call_name, case in big_cases(1000 * ctx.seed + 17 * i + size, size, cplx=(i + ctx.seed) % 2 == 0):
             run_oracle(ctx, call_name, case, key=('big', size, call_name, repr(case.get('n')), repr(case.get('k'))))
         ctx.branch('oracle-R14:count>256')
+    # many singular values in extreme units: the geometric mean must not overflow / underflow (R6 x R14)
+    for sc in (1e12, 1e-12):
+        run_oracle(ctx, 'gmd', {'A': genrec(7 + ctx.seed, (40, 41), ctx.seed % 2 == 0), 'var': {'scale': sc}},
+                   key=('gmd-scale', sc))
     if ctx.tier != 'quick':
         run_oracle(ctx, 'conversion.types', {'x': 2.0, 'y': -30.0, 'bits': 4.0,
                                              'form': {'kind': 'array', 'shape': [2 ** 16 + 1], 'dtype': 'float32',
@@ -1918,15 +1991,24 @@ def corr_projection(ctx, g, drv, n_cases):
                    (g.raw(5, 5, cplx), g.raw(5, 2, cplx), 'boundary', None, None),
                    (np.eye(8)[:, :1] * (1j if cplx else 1.0), np.zeros((8, 2)), 'boundary', None, None)]
         ctx.branch('corr-R5:boundary', 3)
-    for (a, mm, kind, var, base) in inputs:
+    for i_mix, (ca, cb) in enumerate(MIXES):       # R10: basis and projected matrix of different element types
+        m = g.rng.randint(2, 8)
+        xa = mixed_bases(g, m, g.rng.randint(1, m - 1))
+        inputs.append((cast_as(xa, ca), cast_as(mixed_bases(g, m, 2), cb), 'mixed', None, None))
+        ctx.branch('corr-R10:mixed-element-types')
+    for i_in, (a, mm, kind, var, base) in enumerate(inputs):
         m, k = a.shape
+        kw = i_in % 3 == 1                          # R8: every third case by keyword
+        if kw:
+            ctx.branch('corr-R8:keyword')
         with Tap() as tap:
-            p = proj.calcProjectionMatrix(a)
+            p = proj.calcProjectionMatrix(A=a) if kw else proj.calcProjectionMatrix(a)
         invs = tap.calls('inv')
         with Tap() as tap2:
-            op = proj.calcOrthogonalProjectionMatrix(a)
-        obj = proj.Projection(a)
-        pm, om, rm = obj.project(mm), obj.oProject(mm), obj.reflect(mm)
+            op = proj.calcOrthogonalProjectionMatrix(A=a) if kw else proj.calcOrthogonalProjectionMatrix(a)
+        obj = proj.Projection(A=a) if kw else proj.Projection(a)
+        pm, om, rm = (obj.project(M=mm), obj.oProject(M=mm), obj.reflect(M=mm)) if kw else \
+            (obj.project(mm), obj.oProject(mm), obj.reflect(mm))
         ok_calls = len(invs) == 1 and len(tap.log) == 1 and len(tap2.calls('inv')) == 1 and len(tap2.log) == 1
         if not ok_calls:
             ctx.corr('calcProjectionMatrix.kernel-calls', enc(a), 'calls=%s' % [c[0] for c in tap.log], 'calls=[inv]')
@@ -1997,16 +2079,26 @@ def corr_chordal(ctx, g, drv, n_cases):
     inputs += [(e8[:, :3], e8[:, 3:6], False, None, None), (e8[:, :2] + 0j, e8[:, :2] * 1j, True, None, None),
                (g.raw(4, 4, True), g.raw(4, 4, True), True, None, None)]      # orthogonal, identical, whole space
     ctx.branch('corr-R5:boundary', 3)
-    for (a, b, cplx, var, bases) in inputs:
+    for (ca, cb) in MIXES:                         # R10: the two bases have different element types
+        m = g.rng.randint(2, 8)
+        p = g.rng.randint(1, m - 1)
+        xa, xb = cast_as(mixed_bases(g, m, p), ca), cast_as(mixed_bases(g, m, p), cb)
+        inputs.append((xa, xb, np.iscomplexobj(xa) or np.iscomplexobj(xb), None, None))
+        ctx.branch('corr-R10:mixed-element-types')
+    for i_in, (a, b, cplx, var, bases) in enumerate(inputs):
         m, p = a.shape
         q = b.shape[1]
+        kw = i_in % 3 == 1
+        if kw:
+            ctx.branch('corr-R8:keyword')
         with Tap() as t2:
-            d2 = float(met.calc_chordal_distance_2(a, b))
+            d2 = float(met.calc_chordal_distance_2(matrix1=a, matrix2=b) if kw else met.calc_chordal_distance_2(a, b))
         with Tap() as t1:
-            d1 = float(met.calc_chordal_distance(a, b))
+            d1 = float(met.calc_chordal_distance(matrix2=b, matrix1=a) if kw else met.calc_chordal_distance(a, b))
         with Tap() as t3:
-            ang = met.calc_principal_angles(a, b)
-        d3 = float(met.calc_chordal_distance_from_principal_angles(ang))
+            ang = met.calc_principal_angles(matrix1=a, matrix2=b) if kw else met.calc_principal_angles(a, b)
+        d3 = float(met.calc_chordal_distance_from_principal_angles(principalAngles=ang) if kw else
+                   met.calc_chordal_distance_from_principal_angles(ang))
         names = ([c[0] for c in t2.log], [c[0] for c in t1.log], [c[0] for c in t3.log])
         if names != (['inv', 'inv'], ['qr', 'qr'], ['qr', 'qr', 'svd']):
             ctx.corr('chordal.kernel-calls', {'A': enc(twin(a)), 'B': enc(twin(b))}, repr(names),
@@ -2097,7 +2189,11 @@ def corr_whiten(ctx, g, drv, n_cases):
         cplx = np.iscomplexobj(c)
         c64, rt9, rt12 = twin(c), rt(1e-9, c), rt(1e-12, c)
         with Tap() as tap:
-            w = misc.calc_whitening_matrix(c)
+            if len(cases) % 3 == 1:
+                w = misc.calc_whitening_matrix(cov_matrix=c)
+                ctx.branch('corr-R8:keyword')
+            else:
+                w = misc.calc_whitening_matrix(c)
         names = [x[0] for x in tap.log]
         if names != ['eig', 'qr']:
             ctx.corr('calc_whitening_matrix.kernel-calls', {'C': enc(c64)}, repr(names), "['eig', 'qr']")
@@ -2171,8 +2267,14 @@ def corr_uisd(ctx, g, drv, n_cases):
     ctx.branch('corr-R5:boundary', 5)
     for (a, d, inv_a, var) in inputs:
         n = a.shape[0]
+        if np.asarray(inv_a).dtype != np.asarray(d).dtype:
+            ctx.branch('corr-R10:mixed-element-types')
         with Tap() as tap:
-            out = misc.update_inv_sum_diag(inv_a, d)
+            if len(cases) % 3 == 1:
+                out = misc.update_inv_sum_diag(diagonal=d, invA=inv_a)
+                ctx.branch('corr-R8:keyword')
+            else:
+                out = misc.update_inv_sum_diag(inv_a, d)
         cases.append((a, d, inv_a, out, len(tap.log), var))
         lines.append('uisd %d %s %s' % (n, cline(inv_a), cline(d)))
     res = drv.ask(lines)
@@ -2213,14 +2315,25 @@ def corr_select(ctx, g, drv, n_cases):
             if n_ < 2 or np.min(np.diff(w)) >= 1e-2 * max(1.0, np.abs(w).max()):
                 break
         inputs.append((realize(enc(hm), var), var))
+    size = big_size(ctx)                                 # R14: more than 256 eigenvalues, n > 256
+    for cplx in (False, True):
+        inputs.append((gen_from_recipe(genrec(ctx.seed + size, (size + 1, size + 1), cplx, 'herm')), 'big'))
+    ctx.branch('corr-R14:count>256')
     for (a, var) in inputs:
         ncols = a.shape[1]
         which = ['peig', 'leig'][len(cases) % 2]
         n = g.rng.randint(0, ncols) if len(cases) % 6 != 5 else ncols + g.rng.randint(1, 2)
+        if isinstance(var, str):
+            n, var = ncols - 1, None
         fn = misc.peig if which == 'peig' else misc.leig
+        nform = index_form(ctx, n, len(cases))
         with Tap() as tap:
             try:
-                r = fn(a, n)
+                if len(cases) % 3 == 1:                  # R8: by keyword
+                    r = fn(A=a, n=nform)
+                    ctx.branch('corr-R8:keyword')
+                else:
+                    r = fn(a, nform)
                 err = None
             except Exception as e:
                 r, err = None, type(e).__name__
@@ -2270,12 +2383,22 @@ def corr_lrsv(ctx, g, drv, n_cases):
         inputs.append((realize(enc(var_rect(g, var, cplx)), var), var))
     inputs += [(np.array([[3.0]]), None), (g.raw(1, 5, True), None), (g.raw(5, 1, False), None)]
     ctx.branch('corr-R5:boundary', 3)
+    size = big_size(ctx)
+    inputs.append((gen_from_recipe(genrec(ctx.seed + size + 5, (size + 1, size + 43), True)), 'big'))
+    ctx.branch('corr-R14:count>256')
     for ii, (a, var) in enumerate(inputs):
         m, c = a.shape
         n = g.rng.randint(0, c) if ii % 7 else [0, c][ii % 2]
+        if isinstance(var, str):
+            n, var = size, None
+        nform = index_form(ctx, n, ii)
         with Tap() as tap:
             try:
-                r = misc.least_right_singular_vectors(a, n)
+                if ii % 3 == 1:
+                    r = misc.least_right_singular_vectors(A=a, n=nform)
+                    ctx.branch('corr-R8:keyword')
+                else:
+                    r = misc.least_right_singular_vectors(a, nform)
                 err = None
             except Exception as e:
                 r, err = None, type(e).__name__
@@ -2328,9 +2451,14 @@ def corr_gpcm(ctx, g, drv, n_cases):
     for ii, (a, var) in enumerate(inputs):
         m, c = a.shape
         k = g.rng.randint(1, min(m, c)) if ii % 5 else min(m, c)
+        kform = index_form(ctx, k, ii)
         with Tap() as tap:
             try:
-                r = misc.get_principal_component_matrix(a, k)
+                if ii % 3 == 1:
+                    r = misc.get_principal_component_matrix(A=a, num_components=kform)
+                    ctx.branch('corr-R8:keyword')
+                else:
+                    r = misc.get_principal_component_matrix(a, kform)
                 err = None
             except Exception as e:
                 r, err = None, type(e).__name__
@@ -2392,9 +2520,16 @@ def corr_gmd(ctx, g, drv, n_cases):
         if t % 6 == 5:
             tol = float(np.sqrt(sv[-1] * sv[-2]))      # drops the smallest singular value
         with Tap() as tap:
-            q, r, pm = misc.gmd(u, sv, vh, tol)
+            if tol == 0.0 and t % 4 == 0:
+                q, r, pm = misc.gmd(u, sv, vh)                    # R8: tol left at its default
+                ctx.branch('corr-R8:default-argument')
+            elif t % 4 == 1:
+                q, r, pm = misc.gmd(U=u, S=sv, V_H=vh, tol=tol)
+                ctx.branch('corr-R8:keyword')
+            else:
+                q, r, pm = misc.gmd(u, sv, vh, tol)
         pcount = int(np.sum(sv >= tol))
-        sb = float(np.prod(sv[0:pcount]) ** (1. / pcount))
+        sb = float(math.exp(np.mean(np.log(sv[0:pcount])).item()))      # the expression of the code, same bits
         cases.append((a, u, sv, vh, tol, pcount, q, r, pm, len(tap.log)))
         lines.append('gmd %d %d %d %s %s %s %s' % (m, n, pcount, core.f2s(sb), cline(u), fline(sv), cline(H(vh))))
     out = drv.ask(lines)
@@ -2451,6 +2586,31 @@ def corr_conversion(ctx, g, drv, n_cases):
             ctx.corr(nm, {'x': x, 'y': y, 'bits': b}, 'agree' if ok else 'differs: impl %r model %r' % (float(v), mv),
                      'agree', key=(nm, i))
     ctx.branch('conversion', len(xs))
+    # R8 / R9 / R14: keyword forms, bits_per_symb in every index type, one array with more than 256 entries
+    size = big_size(ctx) if ctx.tier == 'quick' else 2 ** 16 + 1
+    xv = 10.0 ** np.linspace(-15, 15, size)
+    yv = np.linspace(-150, 150, size)
+    bform = index_form(ctx, 6, ctx.seed)
+    impl_v = [conv.linear2dB(valueInLinear=xv), conv.dB2Linear(valueIndB=yv), conv.linear2dBm(valueInLinear=xv),
+              conv.dBm2Linear(valueIndBm=yv), conv.SNR_dB_to_EbN0_dB(SNR=yv, bits_per_symb=bform),
+              conv.EbN0_dB_to_SNR_dB(EbN0=yv, bits_per_symb=bform)]
+    ctx.branch('corr-R8:keyword')
+    ctx.branch('corr-R14:count>256')
+    vl = []
+    for x, y in zip(xv, yv):
+        vl += ['lin2db %s' % core.f2s(x), 'db2lin %s' % core.f2s(y), 'lin2dbm %s' % core.f2s(x),
+               'dbm2lin %s' % core.f2s(y), 'snr2ebn0 %s %s' % (core.f2s(y), core.f2s(6.0)),
+               'ebn02snr %s %s' % (core.f2s(y), core.f2s(6.0))]
+    vo = drv.ask(vl)
+    names6 = ['linear2dB', 'dB2Linear', 'linear2dBm', 'dBm2Linear', 'SNR_dB_to_EbN0_dB', 'EbN0_dB_to_SNR_dB']
+    for j, nm in enumerate(names6):
+        mv = np.array([core.s2f(vo[6 * i + j]) for i in range(size)])
+        iv = np.asarray(impl_v[j], dtype=float)
+        ok = iv.shape == mv.shape and bool(np.all(np.abs(iv - mv) <= 1e-12 * np.maximum(1.0, np.maximum(np.abs(iv), np.abs(mv)))))
+        bad = int(np.argmax(np.abs(iv - mv))) if iv.shape == mv.shape else -1
+        ctx.corr(nm + '.vector', {'size': size, 'index': bad, 'x': float(xv[bad]), 'y': float(yv[bad]), 'bits': 6},
+                 'agree' if ok else 'differs at element %d: impl %r model %r' % (bad, iv[bad] if bad >= 0 else None, mv[bad] if bad >= 0 else None),
+                 'agree', key=(nm, 'vector', size))
     # R1 / R5: the same values as Python and numpy scalars of every width (integer valued, in range)
     lines, items = [], []
     for ty in SCALAR_TYPES:
@@ -2638,6 +2798,12 @@ def check(ctx):
             'R1:float32/complex64', 'R1:integer-dtype', 'R1:scalar-int8', 'R1:scalar-uint8', 'R1:scalar-int16',
             'R1:scalar-pyint', 'R1:scalar-float32', 'R2:layout-F', 'R2:layout-T', 'R2:layout-rev',
             'R2:layout-strided', 'R5:boundary', 'R6:scale-tiny', 'R6:scale-huge')]
+    ctx.required_branches += ['corr-R8:keyword', 'corr-R8:default-argument', 'corr-R9:index-int8', 'corr-R9:index-uint8',
+                              'corr-R9:index-uint64', 'corr-R9:index-intp', 'corr-R9:index-0-d', 'corr-R9:index-bool',
+                              'corr-R10:mixed-element-types', 'corr-R14:count>256',
+                              'oracle-R8:argument-forms', 'oracle-R9:index-types', 'oracle-R10:mixed-f64+c128',
+                              'oracle-R10:mixed-f32+c128', 'oracle-R10:mixed-i16+f64', 'oracle-R11:queries-do-not-mutate',
+                              'oracle-R12:order-of-listing', 'oracle-R13:derived-objects', 'oracle-R14:count>256']
     ctx.required_branches += ['oracle-R2:array-shape-', 'oracle-R2:array-shape-0', 'oracle-R2:array-shape-2x1x3',
                               'oracle-R3:independence', 'oracle-R4:rejected-calls', 'oracle-R7:object-history']
     try:
